@@ -8,6 +8,8 @@ import (
 	"encoding/base64"
 	"encoding/json"
 	"fmt"
+	"os"
+	"path/filepath"
 	"sort"
 	"strings"
 
@@ -513,4 +515,111 @@ func (gr *Graph) Describe() map[string]any {
 		out["digest_tags"] = ts
 	}
 	return out
+}
+
+// ---- OCI layout writer (own code: the layouts the client under test reads
+// as sources or finds as pre-existing targets are not written by it)
+
+type layoutEntry struct {
+	MediaType   string            `json:"mediaType"`
+	Digest      string            `json:"digest"`
+	Size        int               `json:"size"`
+	Annotations map[string]string `json:"annotations,omitempty"`
+}
+
+// LayoutFile writes content under blobs/<alg>/<hex>.
+func LayoutFile(dir, dig string, data []byte) error {
+	i := strings.IndexByte(dig, ':')
+	p := filepath.Join(dir, "blobs", dig[:i])
+	if err := os.MkdirAll(p, 0o755); err != nil {
+		return err
+	}
+	return os.WriteFile(filepath.Join(p, dig[i+1:]), data, 0o644)
+}
+
+// LayoutInit creates the marker and an index with the given entries (tag -> node), keeping existing entries.
+func LayoutSetTags(dir string, tags map[string]*Node) error {
+	if err := os.MkdirAll(dir, 0o755); err != nil {
+		return err
+	}
+	if err := os.WriteFile(filepath.Join(dir, "oci-layout"), []byte(`{"imageLayoutVersion":"1.0.0"}`), 0o644); err != nil {
+		return err
+	}
+	var ix struct {
+		SchemaVersion int           `json:"schemaVersion"`
+		MediaType     string        `json:"mediaType,omitempty"`
+		Manifests     []layoutEntry `json:"manifests"`
+	}
+	if b, err := os.ReadFile(filepath.Join(dir, "index.json")); err == nil {
+		_ = json.Unmarshal(b, &ix)
+	}
+	ix.SchemaVersion = 2
+	ix.MediaType = MTOCIIndex
+	var names []string
+	for t := range tags {
+		names = append(names, t)
+	}
+	sort.Strings(names)
+	for _, t := range names {
+		n := tags[t]
+		en := layoutEntry{MediaType: n.MediaType, Digest: n.Digest, Size: len(n.Raw), Annotations: map[string]string{"org.opencontainers.image.ref.name": t}}
+		replaced := false
+		for i := range ix.Manifests {
+			if ix.Manifests[i].Annotations["org.opencontainers.image.ref.name"] == t {
+				ix.Manifests[i] = en
+				replaced = true
+			}
+		}
+		if !replaced {
+			ix.Manifests = append(ix.Manifests, en)
+		}
+	}
+	if ix.Manifests == nil {
+		ix.Manifests = []layoutEntry{}
+	}
+	b, _ := json.Marshal(ix)
+	return os.WriteFile(filepath.Join(dir, "index.json"), b, 0o644)
+}
+
+// InstallLayout stores the graph in an OCI layout directory; plain: only the image itself.
+func (gr *Graph) InstallLayout(dir, tag string, plain bool) error {
+	nodes := gr.AllNodes()
+	if plain {
+		nodes = nil
+		Walk(gr.Root, func(n *Node) { nodes = append(nodes, n) })
+	}
+	for _, n := range nodes {
+		if err := LayoutFile(dir, n.Digest, n.Raw); err != nil {
+			return err
+		}
+		for _, b := range append(append([]*Blob{}, n.Blobs...), n.BlobKids...) {
+			if b.Hosted && !b.External {
+				if err := LayoutFile(dir, b.Desc.Digest, b.Data); err != nil {
+					return err
+				}
+			}
+		}
+	}
+	tags := map[string]*Node{}
+	if tag != "" {
+		tags[tag] = gr.Root
+	}
+	if !plain {
+		for t, n := range gr.DigestTags {
+			tags[t] = n
+		}
+		bySubj := map[string][]*Node{}
+		for _, r := range gr.Referrers {
+			bySubj[r.Subject] = append(bySubj[r.Subject], r)
+		}
+		for s, arts := range bySubj {
+			raw := FallbackIndex(arts)
+			n := &Node{Kind: "index", MediaType: MTOCIIndex, Raw: raw, Digest: regmodel.Digest("sha256", raw)}
+			if err := LayoutFile(dir, n.Digest, n.Raw); err != nil {
+				return err
+			}
+			tags[regmodel.FallbackTag(s)] = n
+		}
+	}
+	return LayoutSetTags(dir, tags)
 }
